@@ -110,7 +110,30 @@ class RuleClassModel(RecordModel):
         # a Rule class is a class (type) built by the metaclass LogicalType
         return z3.BoolVal(c.py in (object, type) or getattr(c.py, "__name__", "") == "LogicalType")
 
+    OPERATOR_DUNDERS = ("__and__", "__rand__", "__or__", "__ror__", "__xor__", "__rxor__")
+
+    def class_value(self, ex, rec=None):
+        if rec is not None:
+            return self.world.repo_class(R, "LogicalType", ex)        # type(<a Rule class>) is the metaclass
+        return RecordModel.class_value(self, ex, rec)
+
     def getattr(self, ex, rec, name, node):
+        if name in self.OPERATOR_DUNDERS and name not in rec.fields:
+            # attribute lookup on a CLASS OBJECT searches the class's own MRO before its metaclass: for a constrained type
+            # built on a builtin that defines the operator for its instances (int.__rand__, dict.__ror__, set.__and__, ...)
+            # `T.__rand__` is that builtin's slot wrapper, not LogicalType.__rand__
+            o = rec.fields.get("__origin__")
+            if isinstance(o, VCls) and o.py is not None:
+                shadowed = z3.BoolVal(any(name in vars(b) for b in o.py.__mro__ if b is not object))
+            elif isinstance(o, VCls):
+                shadowed = z3.Function("class_defines_operator", V, S, B)(o.t, z3.StringVal(name))
+            else:
+                shadowed = z3.BoolVal(False)
+            if ex.branch(shadowed):
+                def slot_wrapper(ex_, a, k, nm=name):
+                    ex_.throw("TypeError", node, origin="builtin-slot-wrapper:" + nm)     # descriptor requires an instance
+                return VFunc("origin." + name, slot_wrapper)
+            return self.world.repo_function(R, "LogicalType." + name, ex, bound=rec)
         if name not in rec.fields:
             r = self.class_model.find(name)
             if r is not None and r[0] == "method":
